@@ -20,6 +20,7 @@ EXPLANATION = (
     "remove_enter_idle return a bool on every path, with both outcomes present; (5) SIB: the select and zmq loops (same state machine) agree on guards, helpers and results."
     ' Added after seed round 3: (7) a registry whose stored values are int parameters (file descriptors) is queried with `in` / `is not None`, never by the truthiness of the stored value.'
     " Round 4: the Twisted wrapper catches BaseException (the reactor swallows everything else); (8) self-made registry handles come from a counter, never from the registry's size; (9) the Twisted idle timer callback lowers its flag on every normal path."
+    " Round-4 triage: (10) an idle pass calls a callback only while it is still registered; (11) a dispatch batch (select, zmq) calls a watch only while it is still the registered one; (12) twisted's doRead returns nothing; (13) the zmq poll time-out is rounded up and an empty poller sleeps; (5, restated) select / zmq dispatch an alarm after a time-out or under an explicit due test, and do not require `not ready` (no starvation); (14) fdopen()/open() of a descriptor parameter passes closefd=False (the descriptor stays its caller's)."
 )
 NOT_DECIDED = "Exactly-once, not-before-due and due-order of alarms, watch repetition, idle-before-quiescence under all interleavings - scheduler semantics under time."
 ASSUMPTIONS = ["The behaviour of the foreign scheduling APIs on a raising callable (log and continue) is taken from their documentation and recorded in the per-class table."]
@@ -576,8 +577,30 @@ def rule_zmq_wait(ctx: Ctx) -> RuleResult:
     return rr
 
 
+def rule_descriptor_ownership(ctx: Ctx) -> RuleResult:
+    """watch_file() is handed a descriptor that belongs to its caller (MainLoop.watch_pipe closes the pipe itself on
+    removal, the screen owns the terminal descriptors).  An event loop that needs a file object for it must not
+    take ownership: os.fdopen(fd) / open(fd) close the descriptor when the object is collected - behind the caller's
+    back, and once more when the caller closes it (by then possibly another file's number).  Every fdopen()/open()
+    of a parameter in the event-loop layer passes closefd=False."""
+    p = ctx.p
+    rr = RuleResult("OWN", "C13.14", "event loops never wrap a caller's descriptor in an owning file object (fdopen/open of a parameter passes closefd=False)", floor=1)
+    for fi in p.functions.values():
+        if not fi.module.name.startswith("urwid.event_loop"):
+            continue
+        for c in fi.own_nodes():
+            if not (isinstance(c, ast.Call) and ((isinstance(c.func, ast.Attribute) and c.func.attr == "fdopen") or (isinstance(c.func, ast.Name) and c.func.id == "open")) and c.args and isinstance(c.args[0], ast.Name) and c.args[0].id in fi.all_params):
+                continue
+            kw = next((k.value for k in c.keywords if k.arg == "closefd"), None)
+            ok = isinstance(kw, ast.Constant) and kw.value is False
+            rr.inst(f"{short(fi)}:{norm(c, 40)}", True, {"function": short(fi), "call": norm(c, 60), "closefd_false": ok})
+            if not ok:
+                rr.add(finding("OWN", fi, c, f"`{norm(c, 60)}` wraps the descriptor `{c.args[0].id}` that {fi.name}() was handed in a file object that owns it: when the handle is dropped the descriptor is closed behind its owner's back (after remove_watch_file the caller's pipe is closed; MainLoop.remove_watch_pipe then closes the number a second time)", construct=f"{fi.name}: owning file object around a caller's descriptor"))
+    return rr
+
+
 def run(ctx: Ctx):
-    return [rule_wrap(ctx), rule_snap(ctx), rule_idle_arming(ctx), rule_remove_returns(ctx), rule_select_zmq(ctx), rule_trio_checkpoint(ctx), rule_presence(ctx), rule_handle_unique(ctx), rule_twisted_idle_flag(ctx), rule_idle_removed(ctx), rule_batch_dispatch(ctx), rule_doread_result(ctx), rule_zmq_wait(ctx)]
+    return [rule_wrap(ctx), rule_snap(ctx), rule_idle_arming(ctx), rule_remove_returns(ctx), rule_select_zmq(ctx), rule_trio_checkpoint(ctx), rule_presence(ctx), rule_handle_unique(ctx), rule_twisted_idle_flag(ctx), rule_idle_removed(ctx), rule_batch_dispatch(ctx), rule_doread_result(ctx), rule_zmq_wait(ctx), rule_descriptor_ownership(ctx)]
 
 
 from ..mutants import Mut  # noqa: E402
@@ -585,6 +608,7 @@ from ..mutants import Mut  # noqa: E402
 _S = "urwid/event_loop/select_loop.py"
 _A = "urwid/event_loop/asyncio_loop.py"
 MUTANTS = [
+    Mut("zmq-watch-file-owns-descriptor", "urwid/event_loop/zmq_loop.py", "ZMQEventLoop.watch_file", "fd = os.fdopen(fd, closefd=False)", "fd = os.fdopen(fd)", "OWN|event_loop.zmq_loop.ZMQEventLoop.watch_file"),
     Mut("zmq-poll-timeout-truncated", "urwid/event_loop/zmq_loop.py", "ZMQEventLoop._loop", "self._poller.poll(math.ceil(timeout * 1000))", "self._poller.poll(timeout * 1000)", "BOUND|event_loop.zmq_loop.ZMQEventLoop._loop"),
     Mut("twisted-doread-returns-result", "urwid/event_loop/twisted_loop.py", "_TwistedInputDescriptor.doRead", "        self.cb()\n", "        return self.cb()\n", "WRAP|event_loop.twisted_loop._TwistedInputDescriptor.doRead"),
     Mut("select-run-suppresses-eintr", "urwid/event_loop/select_loop.py", "SelectEventLoop.run", "            while True:\n                self._loop()", "            while True:\n                with contextlib.suppress(InterruptedError):\n                    self._loop()", "WRAP|event_loop.select_loop.SelectEventLoop.run"),
